@@ -707,7 +707,10 @@ class IntNStringReceiver(protocol.Protocol, _PauseableMixin):
         # containing all the data we have so far and a separate offset into that
         # buffer.
         alldata = self._unprocessed + data
-        currentOffset = 0
+        # Normally zero; it is not when we are called again from inside
+        # stringReceived (for example by resumeProducing), while the strings
+        # before that offset have already been delivered.
+        currentOffset = self._compatibilityOffset
         prefixLength = self.prefixLength
         fmt = self.structFormat
         self._unprocessed = alldata
@@ -730,6 +733,13 @@ class IntNStringReceiver(protocol.Protocol, _PauseableMixin):
             currentOffset = messageEnd
             self._compatibilityOffset = currentOffset
             self.stringReceived(packet)
+
+            if self._unprocessed is not alldata:
+                # dataReceived ran again while the string was being handled
+                # and has consumed part of the buffer: carry on from where it
+                # stopped instead of delivering those strings a second time.
+                alldata = self._unprocessed
+                currentOffset = self._compatibilityOffset
 
             # Check to see if the backwards compat "recvd" attribute got written
             # to by application code.  If so, drop the current data buffer and
